@@ -81,7 +81,7 @@ def plan(tier, seed):
     items = [{"kind": "cuttings", "op": op, "exhaustive": "all cuttings of a 6-byte message into 1..6 fragments "
                                                         "(incl. empty fragments at the ends) x control frames in the first two gaps"}
              for op in (1, 2)]
-    n = 30000 if tier == "quick" else 500000
+    n = 30000 if tier == "quick" else 2000000
     per = 750 if tier == "quick" else 5000
     for s in range(0, n, per):
         items.append({"kind": "rand", "start": s, "count": per})
@@ -189,7 +189,7 @@ def gen(rng):
 
 
 def plan(tier, seed):
-    return _plan0(tier, seed) + [{"kind": "reused", "count": 120 if tier == "quick" else 3000}]
+    return _plan0(tier, seed) + [{"kind": "reused", "count": 120 if tier == "quick" else 12000}]
 
 
 def expand(item, seed):
